@@ -331,11 +331,12 @@ Definition exec_send (s : state) (from to d amt : Z) : res (state * list Z) :=
   do s1 <- bsend s from to d amt;
   Ret (s1, []).
 
-(** types/params.go [Params.Validate]: fee in (0,1), creation fee a valid positive coin, tax rate in
-    (0,1), unilateral fee in [0,1) *)
+(** types/params.go [Params.Validate]: fee in (0,1), creation fee a valid positive coin of at most
+    255 bits (fix "coinswap Params.Validate rejects a pool creation fee amount of more than 255 bits"),
+    tax rate in (0,1), unilateral fee in [0,1) *)
 Definition params_valid (p : params) : bool :=
   (0 <? p_fee p) && (p_fee p <? P18)
-  && (0 <=? p_cdenom p) && (0 <? p_camt p)
+  && (0 <=? p_cdenom p) && (0 <? p_camt p) && (p_camt p <? 2 ^ 255)
   && (0 <? p_tax p) && (p_tax p <? P18)
   && (0 <=? p_ufee p) && (p_ufee p <? P18).
 
